@@ -447,8 +447,40 @@ pub fn cut_bytes(sim: &Sim, data: &[u8], interesting: &[usize]) -> Vec<Bytes> {
     out
 }
 
+/// Couples a caller's request stream to the responses it has seen (a ping-pong conversation):
+/// request k is only produced once min(k, cap) responses have arrived.
+#[derive(Clone, Default)]
+pub struct Gate {
+    seen: std::sync::Arc<std::sync::atomic::AtomicUsize>,
+    waker: std::sync::Arc<std::sync::Mutex<Option<std::task::Waker>>>,
+    cap: usize,
+}
+
+impl Gate {
+    pub fn new(cap: usize) -> Gate {
+        Gate { cap, ..Default::default() }
+    }
+    /// one more response has been seen by the caller
+    pub fn bump(&self) {
+        self.seen.fetch_add(1, std::sync::atomic::Ordering::SeqCst);
+        if let Some(w) = self.waker.lock().unwrap().take() {
+            w.wake();
+        }
+    }
+    fn open_for(&self, k: usize, cx: &mut Context<'_>) -> bool {
+        if self.seen.load(std::sync::atomic::Ordering::SeqCst) >= k.min(self.cap) {
+            true
+        } else {
+            *self.waker.lock().unwrap() = Some(cx.waker().clone());
+            false
+        }
+    }
+}
+
 /// Plain message source for client-streaming requests (`Stream<Item = T>`), with drawn readiness.
 pub struct MsgSource<T> {
+    gate: Option<Gate>,
+    yielded: usize,
     sim: Sim,
     items: VecDeque<T>,
     pending_pct: u64,
@@ -460,7 +492,11 @@ pub struct MsgSource<T> {
 
 impl<T> MsgSource<T> {
     pub fn new(sim: &Sim, items: Vec<T>, pending_pct: u64) -> Self {
-        MsgSource { sim: sim.clone(), items: items.into(), pending_pct, done: false, polls_after_done: 0, consec_pending: 0, after_end_blocks: sim.chance(1, 2) }
+        MsgSource { gate: None, yielded: 0, sim: sim.clone(), items: items.into(), pending_pct, done: false, polls_after_done: 0, consec_pending: 0, after_end_blocks: sim.chance(1, 2) }
+    }
+    pub fn with_gate(mut self, gate: Option<Gate>) -> Self {
+        self.gate = gate;
+        self
     }
 }
 
@@ -488,12 +524,22 @@ impl<T: Unpin> Stream for MsgSource<T> {
             return Poll::Pending;
         }
         this.consec_pending = 0;
+        if let (Some(g), false) = (&this.gate, this.items.is_empty()) {
+            // a conversation: the next request waits for the peer's answers so far
+            if !g.open_for(this.yielded, cx) {
+                this.sim.probe("request-waits-for-response");
+                return Poll::Pending;
+            }
+        }
         match this.items.pop_front() {
             None => {
                 this.done = true;
                 Poll::Ready(None)
             }
-            Some(m) => Poll::Ready(Some(m)),
+            Some(m) => {
+                this.yielded += 1;
+                Poll::Ready(Some(m))
+            }
         }
     }
 }
